@@ -12,5 +12,11 @@ CHECKS = {
   "text": "All path-loss classes are constructed through their real __init__ and their real methods executed with SYMBOLIC parameters/distances; monotonicity, linear=10^(-dB/10) in (0,1], inverse pairs, the raise/clamp policy, the free-space class invariant after arbitrary setter histories (inductive step + all histories up to length 3), Friis within 0.01 dB, METIS wall handling, Okumura-Hata range validation and the sector antenna pattern are discharged for all real inputs. A bounded native sweep re-checks the same contracts in binary64.",
   "note": "Ideal-real arithmetic; log10/pow10 uninterpreted with listed axioms (monotone, inverse pair, product-rule instances, two numeric enclosures checked natively). Random shadowing excluded.",
  },
+ "C16": {
+  "category": "proof",
+  "technique": "contract-based deductive verification: symbolic SNR through the real calcTheoretical* methods, Q uninterpreted with monotonicity axioms, formula tied to d_min/neighbour counts measured on the emitted constellation; bounded float grid with high-precision reference",
+  "text": "For each modulator built by its real constructor the real SER/BER/PER/SE methods are executed on a symbolic SNR: ranges, monotonicity, BER<=SER<=log2(M)BER, PER and SE identities (concrete and symbolic packet length) and the eps-band tie between the Q-argument and (d_min/2)sqrt(2 snr) of the EMITTED constellation are discharged by z3. qfunc is used through its contract, itself proved from the erfc body. Binary64 behaviour (tail accuracy, tends to 0) and the PSK bound-vs-exact claim are bounded numeric checks.",
+  "note": "Ideal reals with binary64 constants (1e-12/1e-15 relative slack where the code rounds constants); Q axioms; PSK exact-SER sandwich only bounded (quadrature).",
+ },
 }
 NOT_APPLICABLE = {}
